@@ -107,7 +107,7 @@ pub fn weights(p: Prop) -> [u8; NOPS] {
         Prop::C04 => [10, 4, 4, 1, 1, 1, 1, 1, 1, 5, 3, 5, 3, 4, 1, 4, 6, 6, 3, 2, 0, 0, 0, 2, 0, 4],
         Prop::C05 => [10, 5, 5, 1, 2, 0, 0, 2, 2, 6, 4, 4, 1, 2, 3, 3, 8, 2, 3, 3, 0, 0, 0, 0, 1, 5],
         Prop::C06 => [10, 4, 4, 3, 3, 3, 2, 1, 1, 5, 3, 3, 1, 3, 6, 3, 6, 3, 0, 3, 0, 0, 4, 3, 1, 3],
-        Prop::C09 => [12, 3, 3, 2, 1, 1, 1, 1, 0, 9, 4, 3, 0, 1, 16, 0, 2, 1, 0, 0, 0, 0, 0, 0, 0, 0],
+        Prop::C09 => [12, 3, 3, 2, 2, 1, 1, 1, 1, 9, 4, 3, 0, 1, 16, 0, 3, 1, 0, 3, 0, 0, 0, 0, 0, 0],
         Prop::C10 => [14, 3, 3, 1, 0, 0, 0, 0, 0, 7, 3, 2, 0, 9, 1, 9, 1, 2, 0, 0, 0, 0, 0, 0, 0, 0],
         Prop::C11 => [10, 3, 3, 1, 0, 0, 0, 0, 0, 7, 3, 2, 0, 1, 0, 0, 24, 1, 0, 0, 0, 0, 0, 0, 0, 0],
         Prop::C12 => [14, 10, 10, 1, 0, 3, 0, 0, 0, 5, 4, 1, 0, 1, 3, 3, 10, 1, 6, 0, 0, 0, 0, 0, 0, 4],
@@ -565,6 +565,7 @@ impl<'c, KD: Kind, const N: usize> MapEng<'c, KD, N> {
 
     fn exec(&mut self, opi: usize, raw: [u8; 4], w: usize, use_unchecked: bool) {
         self.cx.cur_op = OP_NAMES[opi];
+        self.cx.mark_op();
         self.cur_target = w;
         self.op_overflow = false;
         self.op_unchecked = false;
